@@ -366,6 +366,40 @@ func fileContains(p string, subs ...string) bool {
 	return false
 }
 
+// rapidPanicInAbsnfs reports whether rapid recovered a panic whose innermost non-runtime frame is absnfs code
+// (a panic raised by the code under test while the check was calling it; a panic in harness code is not).
+func rapidPanicInAbsnfs(logPath string) bool {
+	b, err := os.ReadFile(logPath)
+	if err != nil {
+		return false
+	}
+	i := bytes.Index(b, []byte("[rapid] panic"))
+	if i < 0 {
+		return false
+	}
+	// the traceback starts where the panic was last re-raised (deferred recover/re-panic helpers of the harness);
+	// the origin is the first non-runtime frame below runtime.gopanic
+	seenGopanic := false
+	for _, line := range strings.Split(string(b[i:]), "\n") {
+		j := strings.Index(line, " in ")
+		if j < 0 {
+			continue
+		}
+		fn := strings.TrimSpace(line[j+4:])
+		if strings.HasPrefix(fn, "runtime.") || strings.HasPrefix(fn, "runtime/") {
+			if strings.HasPrefix(fn, "runtime.gopanic") {
+				seenGopanic = true
+			}
+			continue
+		}
+		if !seenGopanic {
+			continue
+		}
+		return strings.HasPrefix(fn, "github.com/absfs/absnfs.")
+	}
+	return false
+}
+
 func sigHash(s string) string {
 	h := fnv.New64a()
 	h.Write([]byte(s))
@@ -574,8 +608,11 @@ func runCheck(id, tier string) int {
 		}
 		if r.exit != 0 && (s == nil || len(s.Violations) == 0) {
 			// The process failed without an oracle verdict: crash or harness failure.
-			if fileContains(r.logPath, "panic:", "fatal error:", "WARNING: DATA RACE") && fileContains(r.logPath, "github.com/absfs/absnfs.") {
+			if (fileContains(r.logPath, "panic:", "fatal error:", "WARNING: DATA RACE") && fileContains(r.logPath, "github.com/absfs/absnfs.")) || rapidPanicInAbsnfs(r.logPath) {
 				sig := "process-crash"
+				if rapidPanicInAbsnfs(r.logPath) {
+					sig = "panic-in-absnfs"
+				}
 				if fileContains(r.logPath, "WARNING: DATA RACE") {
 					sig = "data-race"
 				}
